@@ -1,0 +1,6 @@
+//go:build verif
+
+package app
+
+// VerifHandleDefinitionChanges exposes the reload loop to the simulation harness.
+var VerifHandleDefinitionChanges = handleDefinitionChanges
